@@ -1,6 +1,6 @@
 """C07 - exploration getters and lengths report exactly what is stored (DESIGN 4, C07)."""
 
-from .. import observers, world as W
+from .. import ladder, observers, world as W
 from .base import E1Check, closure_configs
 from .c01 import std_ops
 
@@ -22,7 +22,8 @@ class C07(E1Check):
     def configs(self):
         # the depth-bounded runs plus runs to the fixpoint within 2 stored points (histories of any length)
         extra = [] if self.tier == "quick" else closure_configs(("mem",))
-        return super().configs() + extra
+        lad = ladder.configs(self.ladder_sizes(), storages=("mem", "csv"), autos=(True, False), D=2)
+        return super().configs() + lad + extra
 
     def budget(self):
         return 600 if self.tier == "quick" else 1200
@@ -47,6 +48,8 @@ class C07(E1Check):
             counters["states_with_linebreak_value"] += 1
         if len({rp[1] for rp in stored}) > 1:
             counters["states_with_two_measurements"] += 1
+        if cfg.get("ladder"):
+            return observers.getter_battery("C07", w.db, stored, cfg, counters, filters=(None, "big", "n"))
         return observers.getter_battery("C07", w.db, stored, cfg, counters)
 
 
